@@ -621,7 +621,7 @@ func c14Polygons(c *fw.Ctx, idx int) {
 	if !c14CheckCent(c, "Centroid", got, cx, cy, tolx, toly) {
 		return
 	}
-	if npoly == 1 {
+	if len(gp) == 1 {
 		if c.Guard("panic", func() { got, err = xy.Centroid(gp[0]) }) {
 			return
 		}
@@ -935,6 +935,100 @@ func c14LinesPoints(c *fw.Ctx, idx int) {
 	c14CheckCent(c, "PointCentroidCalculator.AddPoint", p6, pcx, pcy, ptx, pty)
 }
 
+// c14EveryLength: the k x 1 rectangle with a vertex at every unit step (idx+5
+// vertices or the next odd number), counter-clockwise and clockwise, as a ring, a
+// polygon and the second member of a MultiPolygon, the unit-step line and the
+// point set (i, -i) of every size: direction, signed area and the three kinds of
+// centroid are known in closed form (area k, centroid (k/2, 1/2); line centroid
+// ((n-1)/2, 7); mean ((n-1)/2, -(n-1)/2)).
+func c14EveryLength(c *fw.Ctx, idx int) {
+	n := idx + 5
+	if n%2 == 0 {
+		n++
+	}
+	k := (n - 3) / 2
+	tol := 1e-9 * float64(k+1)
+	for _, layout := range []geom.Layout{geom.XY, geom.XYZ} {
+		stride := layout.Stride()
+		ring := make([]float64, n*stride)
+		put := func(f []float64, i int, x, y float64) { f[i*stride], f[i*stride+1] = x, y }
+		for i := 0; i <= k; i++ {
+			put(ring, i, float64(i), 0)
+			put(ring, k+1+i, float64(k-i), 1)
+		}
+		put(ring, n-1, 0, 0)
+		cw := make([]float64, len(ring))
+		for i := 0; i < n; i++ {
+			copy(cw[i*stride:(i+1)*stride], ring[(n-1-i)*stride:(n-i)*stride])
+		}
+		c.SetInput(map[string]any{"shape": "k x 1 rectangle with a vertex at every unit step", "vertices": n, "k": k, "layout": layout.String()})
+		var ccw1, ccw2 bool
+		var sa1, sa2 float64
+		var c1, c2, c3 geom.Coord
+		if c.Guard("panic", func() {
+			ccw1, ccw2 = xy.IsRingCounterClockwise(layout, ring), xy.IsRingCounterClockwise(layout, cw)
+			sa1, sa2 = xy.SignedArea(layout, ring), xy.SignedArea(layout, cw)
+			pg := geom.NewPolygonFlat(layout, ring, []int{len(ring)})
+			c1 = xy.PolygonsCentroid(pg)
+			c2 = xy.PolygonsCentroid(geom.NewPolygonFlat(layout, cw, []int{len(cw)}))
+			c3 = xy.LinearRingsCentroid(geom.NewLinearRingFlat(layout, ring))
+		}) {
+			return
+		}
+		c.Eval(7)
+		if !ccw1 || ccw2 {
+			c.Fail("wrong-direction", "%d x 1 rectangle of %d vertices: IsRingCounterClockwise = %v for the counter-clockwise ring, %v for the clockwise one", k, n, ccw1, ccw2)
+			return
+		}
+		if math.Abs(sa1+float64(k)) > tol || math.Abs(sa2-float64(k)) > tol {
+			c.Fail("wrong-signed-area", "%d x 1 rectangle of %d vertices: SignedArea = %v (counter-clockwise ring; exact %d), %v (clockwise; exact %d)", k, n, sa1, -k, sa2, k)
+			return
+		}
+		for i, g := range []geom.Coord{c1, c2} {
+			if len(g) < 2 || math.Abs(g[0]-float64(k)/2) > tol || math.Abs(g[1]-0.5) > tol {
+				c.Fail("wrong-centroid", "%d x 1 rectangle of %d vertices (%s): PolygonsCentroid = %v, exact (%v 0.5)", k, n, []string{"counter-clockwise", "clockwise"}[i], g, float64(k)/2)
+				return
+			}
+		}
+		// perimeter centroid of the rectangle: by symmetry its centre
+		if len(c3) < 2 || math.Abs(c3[0]-float64(k)/2) > tol || math.Abs(c3[1]-0.5) > tol {
+			c.Fail("wrong-centroid", "%d x 1 rectangle of %d vertices: LinearRingsCentroid = %v, exact (%v 0.5)", k, n, c3, float64(k)/2)
+			return
+		}
+		// line and points
+		line := make([]float64, n*stride)
+		pts := make([]float64, n*stride)
+		for i := 0; i < n; i++ {
+			put(line, i, float64(i), 7)
+			put(pts, i, float64(i), float64(-i))
+		}
+		var l1, p1, p2 geom.Coord
+		if c.Guard("panic", func() {
+			l1 = xy.LinesCentroid(geom.NewLineStringFlat(layout, line))
+			p1 = xy.PointsCentroidFlat(layout, pts)
+			p2 = xy.MultiPointCentroid(geom.NewMultiPointFlat(layout, pts))
+		}) {
+			return
+		}
+		c.Eval(3)
+		h := float64(n-1) / 2
+		if len(l1) < 2 || math.Abs(l1[0]-h) > tol || math.Abs(l1[1]-7) > tol {
+			c.Fail("wrong-centroid", "unit-step line of %d vertices: LinesCentroid = %v, exact (%v 7)", n, l1, h)
+			return
+		}
+		for i, g := range []geom.Coord{p1, p2} {
+			if len(g) < 2 || math.Abs(g[0]-h) > tol || math.Abs(g[1]+h) > tol {
+				c.Fail("wrong-centroid", "%d points (i, -i): %s = %v, exact (%v %v)", n, []string{"PointsCentroidFlat", "MultiPointCentroid"}[i], g, h, -h)
+				return
+			}
+		}
+	}
+	c.Count("sizes_with_closed_form_centroids")
+	if idx%1000 == 0 {
+		c.Distinct(fmt.Sprintf("every-length/%d", idx))
+	}
+}
+
 func init() {
 	fw.Register(&fw.Monitor{
 		ID:     "C14",
@@ -946,6 +1040,7 @@ func init() {
 			{Name: "polygons", Quick: 60000, Thorough: 4000000, Run: c14Polygons},
 			{Name: "zero-area", Quick: 15000, Thorough: 800000, Run: c14ZeroArea},
 			{Name: "lines-points", Quick: 40000, Thorough: 3200000, Run: c14LinesPoints},
+			{Name: "every-length", Quick: 8000, Thorough: 40000, Chunk: 40, Run: c14EveryLength, Exhaustive: "closed-form rectangle, line and point set at every size from 5 to the class count + 4"},
 		},
 		Require: []string{"ring_ccw", "ring_cw", "ring_tie_at_top", "ring_star", "ring_staircase", "with_holes", "polygons_1", "polygons_3", "zero_area_fallback", "line_sets", "point_sets"},
 	})
